@@ -255,7 +255,20 @@ def decode(method: bytes, props, data: bytes, outsize, password=None) -> bytes:
 
             if data[:4] == b"\x50\x2a\x4d\x18":
                 raise Unsupported("brotli skippable frame")
-            return brotli.decompress(data) if data else b""
+            # py7zr ends its Brotli streams with flush() rather than finish(): no final block.  A streaming decoder
+            # delivers all bytes all the same; whether the stream is "finished" is outside the rules C07 enforces.
+            if not data:
+                return b""
+            dec = brotli.Decompressor()
+            out = dec.process(data)
+            for _ in range(64):
+                if dec.is_finished():
+                    break
+                more = dec.process(b"")
+                if not more:
+                    break
+                out += more
+            return out
         if method == M_PPMD:
             import pyppmd
 
